@@ -2,7 +2,7 @@
 import importlib, time
 from ..contract import REGISTRY, Verdict
 
-CONTRACT_MODULES = ['operation', 'mps']
+CONTRACT_MODULES = ['operation', 'mps', 'mpo']
 
 def load_contracts():
     for m in CONTRACT_MODULES:
